@@ -209,6 +209,19 @@ def c17_layer_clear():
         return False, f"Layer.clear() raised AttributeError: {e}"
 
 
+def c17_biclique_shape():
+    """C17: every layer output has its neuron group's batched shape (Biclique with a built-in combine)."""
+    syn = neural.DeltaCurrent.partialconstructor(1.0)
+    mk = lambda: neural.LinearDense((3,), (2,), 1.0, synapse=syn, batch_size=2)
+    lif = lambda: neural.LIF((2,), 1.0, rest_v=-60.0, reset_v=-65.0, thresh_v=-50.0, refrac_t=0.0, time_constant=20.0, batch_size=2)
+    layer = neural.Biclique([("a", mk()), ("b", mk())], [("x", lif())], combine="sum")
+    x = torch.ones(2, 3).bool()
+    out = layer({"a": (x,), "b": (x,)})["x"]
+    v = layer.neurons_["x"].voltage
+    ok = tuple(out.shape) == (2, 2) and tuple(v.shape) == (2, 2)
+    return ok, f"Biclique output shape {tuple(out.shape)}, neuron voltage shape {tuple(v.shape)} (batched shape is (2, 2))"
+
+
 def c19_refrac_ignored():
     """C19: the refractory Poisson encoder never places two spikes closer than the refractory period."""
     g = torch.Generator().manual_seed(0)
